@@ -4,7 +4,7 @@
    one event (Acq/Rel R|W, Rd/Wr Hdr|Entries, CallUser) of one thread; how often a repeated part runs and what a write does
    are chosen by the schedule entry, so "for all schedules" covers every data-dependent control flow and every effect. *)
 From Coq Require Import List ZArith Bool.
-From V Require Import Lib.Enc Gen.SafeKVSkel Model.SafeKV Run.C12 Proofs.SafeKVInv Proofs.SafeKVConc Proofs.SafeKVSeq Proofs.SafeKVSkelOk Proofs.SafeKVExec Proofs.SafeKVRun.
+From V Require Import Lib.Enc Gen.SafeKVSkel Model.SafeKV Model.SafeKVCalls Run.C12 Proofs.SafeKVCalls Proofs.SafeKVInv Proofs.SafeKVConc Proofs.SafeKVSeq Proofs.SafeKVSkelOk Proofs.SafeKVExec Proofs.SafeKVRun.
 Import ListNotations.
 
 (* the skeletons extracted from the current mapz/safekv.go and mapz/iter.go obey the lock discipline (all of them, also
@@ -68,3 +68,17 @@ Print Assumptions c12_run_model_is_spec.
 Theorem c12_entry_seq_model_is_spec : forall cap ops, entry 0 (0 :: cap :: ops)%Z = entry 1 (0 :: cap :: ops)%Z.
 Proof. exact entry_seq_model_is_spec. Qed.
 Print Assumptions c12_entry_seq_model_is_spec.
+
+(* the step machine driven by calls (Model/SafeKVCalls.v): threads execute SafeKV calls over the generated skeletons, the
+   control flow and the writes come from the effect table evaluated on what the call's own reads saw in the SHARED map.
+   For every thread count, initial map and schedule: every completed call (cl, s, f, r in the ghost log = call, map found
+   when the lock was taken, map left when it was released, result) returned what the specification returns on s and left
+   what the specification leaves — each call takes effect atomically with respect to a plain map *)
+Theorem c12_calls_atomic : forall n m0 sched, let c := crun (cinit n m0) sched in
+  forall t, In t (cths c) -> forall cl s f r, In (cl, s, f, r) (clog t) -> f = fst (sem cl s) /\ r = snd (sem cl s).
+Proof. exact calls_atomic. Qed.
+Print Assumptions c12_calls_atomic.
+(* ... and its configurations are configurations of the generic machine over the generated skeletons: no data race *)
+Theorem c12_calls_race_free : forall n m0 sched, ~ race (proj (crun (cinit n m0) sched)).
+Proof. exact calls_race_free. Qed.
+Print Assumptions c12_calls_race_free.
